@@ -166,6 +166,18 @@ def populate(r: random.Random, shape: Sequence[Tuple[str, Sequence[int]]]) -> Di
             for p in l["parents"]:
                 pl = by_name[p["layer"]]
                 pl["objects"] = [o for o in pl["objects"] if o["cat"] not in lg.NOT_IN_PROTOCOL]
+    # diagnostic communications taken over by reference (DIAG-COMM-REF): a job defined in one
+    # library is a local object of every layer that refers to it - of other libraries too
+    if "diag_comms" in active and r.random() < 0.5:
+        providers = [(l["name"], o) for l in h["layers"] if l["kind"] == "ECU-SHARED-DATA"
+                     for o in l["objects"] if o["cat"] == "job" and not o.get("twin")]
+        for l in h["layers"]:
+            if not providers or r.random() < 0.5:
+                continue
+            pn, po = r.choice(providers)
+            taken = {o["name"] for o in l["objects"] if CATS[o["cat"]][0] == "diag_comms"}
+            if pn != l["name"] and po["name"] not in taken:
+                l["objects"].append({"cat": "job", "name": po["name"], "twin": False, "ref": pn})
     lg.add_helpers(h)
     pool = sorted(names_used) or ["a"]
     excl_p = r.choice([0.0, 0.2, 0.5])
@@ -220,6 +232,7 @@ def repair(r: random.Random, h: Dict[str, Any], keep_one: bool) -> None:
                     dl = by_name[d]
                     dl["objects"] = [o for o in dl["objects"]
                                      if not (CATS[o["cat"]][0] == c.ns and o["name"] == c.name)]
+            lg.drop_dangling_refs(h)
     raise RuntimeError("repair did not converge")
 
 
